@@ -193,7 +193,14 @@ pub const MULTI_RULES: &[&str] = &[
 
 pub fn run(id: &str, cfg: &RunCfg) -> PropResult {
     let (p, quick, thorough) = prop(id);
-    let report = if let Some(case) = cfg.case.as_ref().filter(|c| c.starts_with('c')) {
+    let report = if let Some(case) = cfg.case.as_ref().filter(|c| c.starts_with('u') || c.starts_with('k')) {
+        let mut it = case[1..].split(':');
+        let seed: u64 = it.next().and_then(|s| s.parse().ok()).unwrap_or(cfg.seed);
+        let idx: u64 = it.next().and_then(|s| s.parse().ok()).unwrap_or(0);
+        let mut r = crate::report::Report::default();
+        r.add(idx, if case.starts_with('u') { super::racelanes::suspend_race_case(seed, idx) } else { super::racelanes::ticker_race_case(seed, idx) });
+        r
+    } else if let Some(case) = cfg.case.as_ref().filter(|c| c.starts_with('c')) {
         let mut it = case[1..].split(':');
         let seed: u64 = it.next().and_then(|s| s.parse().ok()).unwrap_or(cfg.seed);
         let idx: u64 = it.next().and_then(|s| s.parse().ok()).unwrap_or(0);
@@ -214,6 +221,16 @@ pub fn run(id: &str, cfg: &RunCfg) -> PropResult {
             // schedule part: real threads (each run brings 2-8 of its own)
             let nc = if cfg.thorough { 20_000 } else { 400 };
             r.merge(crate::report::run_parallel_tagged('c', nc, 4, |i| super::c02conc::concurrent_case(cfg.seed, i)));
+        }
+        if id == "C03" {
+            // schedule part: a second thread's update let loose inside a suspend closure
+            let nu = if cfg.thorough { 40_000 } else { 1_200 };
+            r.merge(crate::report::run_parallel_tagged('u', nu, workers(), |i| super::racelanes::suspend_race_case(cfg.seed, i)));
+        }
+        if id == "C01" {
+            // schedule part: a steady-tick thread parked in front of a lock request while the bar is finished
+            let nk = if cfg.thorough { 6_000 } else { 200 };
+            r.merge(crate::report::run_parallel_tagged('k', nk, 8, |i| super::racelanes::ticker_race_case(cfg.seed, i)));
         }
         r
     };
